@@ -169,135 +169,93 @@ def cone_of_influence(hyps, seeds):
 _SMALL = [0, 1, 2, 3, -1, 5, 7, -2, 4, 11, 6, -3]
 
 
+def _defs(P):
+    return {str(v): d for v, d in P.defs}
+
+
 def concrete_refute(P, hyps, goal, tries=6, seed=0):
     """Quick falsification before any solving: assign small concrete values to the input
     symbols, extend to every derived symbol by its definition and to every product / quotient
-    application by true arithmetic, and evaluate.  A hit (all hypotheses true, goal false) is
-    an exact countermodel; a miss decides nothing."""
+    application by true arithmetic (pyvc.evalz3), and evaluate.  A hit (all hypotheses true,
+    goal false) is an exact countermodel; a miss decides nothing."""
     import random
-    p = P.p
-    fs = list(hyps) + [goal]
+    from .evalz3 import Evaluator, NotConcrete
+    defs = _defs(P)
     atoms = {}
-    for f in fs:
+    for f in list(hyps) + [goal]:
         for e in _consts(f):
-            atoms[e.get_id()] = e
-    defined = {v.get_id(): d for v, d in P.defs}
-    inputs = [e for k, e in atoms.items() if k not in defined]
+            atoms[str(e)] = e
+    inputs = [e for n, e in atoms.items() if n not in defs]
     if any(z3.is_array(e) for e in inputs):
         return None
-    apps = []
-    for (t, a, b) in P._imul.values():
-        apps.append((t.get_id(), "imul", t, a, b))
-    for (u, a, b) in P._fmul.values():
-        apps.append((u.get_id(), "fmul", u, a, b))
-    for key, (q, mm) in P._idiv.items():
-        apps.append((q.get_id(), "idiv", (q, mm), q.arg(0), q.arg(1)))
-    order = sorted([(v.get_id(), "def", v, d, None) for v, d in P.defs if v.get_id() in atoms] + apps, key=lambda x: x[0])
     rnd = random.Random(seed)
     for attempt in range(tries):
-        subs = []
+        env = {}
         for e in inputs:
             if z3.is_bool(e):
-                subs.append((e, z3.BoolVal(True if attempt % 2 == 0 else rnd.random() < 0.5)))
+                env[str(e)] = True if attempt % 2 == 0 else (rnd.random() < 0.5)
             else:
-                k = _SMALL[(attempt + rnd.randrange(len(_SMALL))) % len(_SMALL)] if attempt else _SMALL[rnd.randrange(4)]
-                subs.append((e, z3.IntVal(k)))
-
-        def val(t):
-            r = z3.simplify(z3.substitute(t, *subs)) if subs else z3.simplify(t)
-            if z3.is_int_value(r):
-                return r.as_long()
-            raise ValueError("not concrete")
+                env[str(e)] = _SMALL[rnd.randrange(4)] if attempt == 0 else _SMALL[rnd.randrange(len(_SMALL))]
+        E = Evaluator(env, P.p, defs)
         try:
-            for _, kind, t, a, b in order:
-                try:
-                    if kind == "def":
-                        if a is None:
-                            subs.append((t, z3.BoolVal(True) if z3.is_bool(t) else z3.IntVal(0)))
-                        else:
-                            subs.append((t, z3.IntVal(a(val))))
-                        continue
-                    a0, b0 = val(a), val(b)
-                except ValueError:
-                    continue          # over symbols outside this obligation's cone: irrelevant here
-                if kind == "imul":
-                    subs.append((t, z3.IntVal(a0 * b0)))
-                    subs.append((sym._IMUL(b, a), z3.IntVal(a0 * b0)))
-                elif kind == "fmul":
-                    subs.append((t, z3.IntVal((a0 * b0) % p)))
-                    subs.append((sym._FMUL(b, a), z3.IntVal((a0 * b0) % p)))
-                else:
-                    if b0 == 0:
-                        raise ValueError("zero divisor")
-                    subs.append((t[0], z3.IntVal(a0 // b0)))
-                    subs.append((t[1], z3.IntVal(a0 % b0)))
-            g = z3.simplify(z3.substitute(goal, *subs))
-            if not z3.is_false(g):
+            if E.ev(goal):
                 continue
-            if globals().get("DEBUG_REFUTE"):
-                for h in hyps:
-                    hv = z3.simplify(z3.substitute(h, *subs))
-                    if not z3.is_true(hv):
-                        print("HYP NOT TRUE:", str(h)[:300], "=>", str(hv)[:200])
-            if all(z3.is_true(z3.simplify(z3.substitute(h, *subs))) for h in hyps):
-                return {str(e): (x.as_long() if z3.is_int_value(x) else str(x)) for e, x in subs
-                        if z3.is_const(e) and e.decl().kind() == z3.Z3_OP_UNINTERPRETED}
-        except (ValueError, ZeroDivisionError, z3.Z3Exception) as e_:
-            if globals().get("DEBUG_REFUTE"):
-                print("refuter exception:", type(e_).__name__, str(e_)[:300])
+            if all(E.ev(h) for h in hyps):
+                return {k: (v if not isinstance(v, bool) else str(v)) for k, v in E.env.items() if k in atoms}
+        except (NotConcrete, ZeroDivisionError, ValueError, RecursionError):
             continue
     return None
 
 
+def concrete_refute_at(P, hyps, goal, inputs):
+    """Evaluate hypotheses and goal at the given input assignment (name -> int).  Returns True
+    when all hypotheses and the goal hold, else a description of what does not."""
+    from .evalz3 import Evaluator, NotConcrete
+    E = Evaluator(inputs, P.p, _defs(P))
+    try:
+        for h in hyps:
+            if not E.ev(h):
+                return "axiom/hypothesis does not hold: %s" % str(h)[:200]
+        if not E.ev(goal):
+            return "encoded result differs from CPython: %s" % str(goal)[:200]
+    except (NotConcrete, ZeroDivisionError) as e:
+        return "cannot evaluate: %s" % e
+    return True
+
+
 def repair_model(s, P, m, within=None):
     """Try to turn an abstract countermodel into an exact one without further solving: keep the
-    model's values of the atomic symbols, recompute every product / quotient application with
-    true arithmetic (innermost first), and evaluate all assertions under that assignment.
-    Returns the exact assignment (dict) when every assertion evaluates to true, else None."""
-    p = P.p
+    model's values of the input symbols, recompute every derived symbol and every product /
+    quotient with true arithmetic, and evaluate all assertions under that assignment."""
+    from .evalz3 import Evaluator, NotConcrete
+    defs = _defs(P)
     asserts = list(s.assertions())
     atoms = {}
     for f in asserts:
         for e in _consts(f):
-            atoms[e.get_id()] = e
-    subs = []
-    for e in atoms.values():
-        v = m.eval(e, model_completion=True)
-        if z3.is_int_value(v) or z3.is_true(v) or z3.is_false(v):
-            subs.append((e, v))
-        elif not z3.is_array(e):
+            atoms[str(e)] = e
+    env = {}
+    for n, e in atoms.items():
+        if z3.is_array(e):
             return None
-    def val(t):
-        r = z3.simplify(z3.substitute(t, *subs)) if subs else z3.simplify(t)
-        return r.as_long() if z3.is_int_value(r) else None
-    apps = []
-    for (t, a, b) in P._imul.values():
-        apps.append((t.get_id(), "imul", t, a, b))
-    for (u, a, b) in P._fmul.values():
-        apps.append((u.get_id(), "fmul", u, a, b))
-    for key, (q, mm) in P._idiv.items():
-        apps.append((q.get_id(), "idiv", (q, mm), q.arg(0), q.arg(1)))
-    apps.sort(key=lambda x: x[0])              # creation order: arguments before applications
-    for _, kind, t, a, b in apps:
-        a0, b0 = val(a), val(b)
-        if a0 is None or b0 is None:
+        # adversarial witnesses and other solver-chosen symbols keep the model's value;
+        # functionally defined symbols (bit views, inverses) are recomputed
+        if n in defs and defs[n] is not None and not n.startswith("a_"):
             continue
-        if kind == "imul":
-            subs.append((t, z3.IntVal(a0 * b0)))
-            subs.append((sym._IMUL(b, a), z3.IntVal(a0 * b0)))
-        elif kind == "fmul":
-            subs.append((t, z3.IntVal((a0 * b0) % p)))
-            subs.append((sym._FMUL(b, a), z3.IntVal((a0 * b0) % p)))
+        val = m.eval(e, model_completion=True)
+        if z3.is_int_value(val):
+            env[n] = val.as_long()
+        elif z3.is_true(val) or z3.is_false(val):
+            env[n] = z3.is_true(val)
         else:
-            if b0 == 0:
-                return None
-            subs.append((t[0], z3.IntVal(a0 // b0)))
-            subs.append((t[1], z3.IntVal(a0 % b0)))
-    for f in asserts:
-        r = z3.simplify(z3.substitute(f, *subs))
-        if not z3.is_true(r):
             return None
-    return {str(e): (v.as_long() if z3.is_int_value(v) else str(v)) for e, v in subs if z3.is_const(e) and e.decl().kind() == z3.Z3_OP_UNINTERPRETED}
+    E = Evaluator(env, P.p, {k: d for k, d in defs.items() if not k.startswith("a_")})
+    try:
+        if all(E.ev(f) for f in asserts):
+            return {k: (v if not isinstance(v, bool) else str(v)) for k, v in E.env.items() if k in atoms}
+    except (NotConcrete, ZeroDivisionError, ValueError, RecursionError):
+        return None
+    return None
 
 
 def _consts(f):
